@@ -126,8 +126,16 @@ def rule_r2(F, rep):
                  "plain string literals")
     n = 0
     want_err = {"Bind.name": "RepeatedLocalName", "Param.name": "RepeatedParamName"}
-    for name in envflow.ANALYZE:
-        fn = F.fn("<%s>::%s" % (A, name))
+    todo = [F.fn("<%s>::%s" % (A, name)) for name in envflow.ANALYZE]
+    # helpers introduced later that insert binders are checked like the analysis functions themselves
+    seen_q = {f.q for f in todo}
+    for f in list(todo):
+        for g in _with_new_callees(F, f)[1:]:
+            if g.q not in seen_q:
+                seen_q.add(g.q)
+                todo.append(g)
+    for fn in todo:
+        name = fn.q.rsplit("::", 1)[-1]
         rep.fn(fn)
         fl = envflow.FnEnvFlow(F, fn)
         body = fn.body
